@@ -7,6 +7,7 @@ import Rtcm.Model.Socket
 import Rtcm.Model.Names
 import Rtcm.Model.Layout
 import Rtcm.Model.Repr
+import Rtcm.Model.Machine
 import Rtcm.Gen.Tables
 /-
   Line-protocol driver over the executable model (no Lemmas / Props / Mathlib imported).
@@ -123,6 +124,20 @@ def optsOf (v q l p : String) : Option Opts := do
   let v ← v.toNat?; let q ← q.toNat?; let l ← l.toNat?; let p ← p.toNat?
   pure ⟨v, q, l, p ≠ 0⟩
 
+/-- run a thread of the small-step model until it has finished -/
+partial def finishThread (t : TState) : TState :=
+  match t with
+  | .finished _ => t
+  | _ => finishThread (tstep T t)
+
+def parseJobs (s : String) : Option (List (Option Bytes × Nat)) :=
+  (s.splitOn ",").mapM fun j =>
+    match j.splitOn ":" with
+    | [l, h] => match l.toNat? with
+      | some l => if h = "NONE" then some (none, l) else (hexToBytes (if h = "-" then "" else h)).map fun b => (some b, l)
+      | none => none
+    | _ => none
+
 def step (line : String) : String :=
   match (line.trimAscii.toString.splitOn " ").filter (· ≠ "") with
   | ["crc", h] => match hexToBytes h with
@@ -136,6 +151,16 @@ def step (line : String) : String :=
         | some bs => outStr msgStr (construct T (some bs) l)
         | none => "bad-op"
     | none => "bad-op"
+  | ["conc", sched, js] =>
+    -- several threads constructing messages under the given schedule (small-step model), then
+    -- every thread run to its end; one result per thread
+    match (if sched = "-" then some [] else (sched.splitOn ",").mapM (·.toNat?)), parseJobs js with
+    | some sc, some js =>
+      let pool := poolRun T (js.map fun j => TState.start j.1 j.2) sc
+      " || ".intercalate (pool.map fun t => match (finishThread t).result with
+        | some r => outStr msgStr r
+        | none => "unfinished")
+    | _, _ => "bad-op"
   | ["lay", l, h, vs] =>
     -- lay the raw values out (spec side of C03), pack them, compare with the given payload bytes
     match l.toNat?, hexToBytes h, (if vs = "-" then some [] else (vs.splitOn ",").mapM (·.toNat?)) with
